@@ -1052,7 +1052,9 @@ class Variable(CanBehaveLikeAVariable[T]):
             self._update_domain_(self._domain_source_.domain)
 
     def _update_domain_(self, domain):
-        if domain:
+        # not the truth value of the domain: a single object given as the domain may be falsy (an empty world, 0), and
+        # asking it runs user code while the query is built
+        if domain is not None:
             if isinstance(domain, HashedIterable):
                 self._domain_ = domain
                 return
